@@ -15,6 +15,19 @@ func funcID(name string) *Term {
 	return IntC(int64(2000000) + int64(h.Sum32()%1000000000))
 }
 
+// trivialLoopSpec: coarse units may leave loops without an invariant; the loop
+// is then cut with the invariant `true` (everything it assigns is unknown
+// afterwards), which is sound and loses only precision.
+func trivialLoopSpec(spec *LoopSpec) *LoopSpec {
+	n := &LoopSpec{}
+	if spec != nil {
+		*n = *spec
+	}
+	e, _ := parseContractExpr("true")
+	n.Invariants = []*Clause{{Label: "trivial", Src: "true", Expr: e}}
+	return n
+}
+
 // monitorCall implements the monitor rule (DESIGN 2.6) for a call
 // owner.mu.Lock() / owner.mu.Unlock() when the unit declares
 // `monitor owner invariant I`: Lock forgets everything about the owner's
